@@ -701,13 +701,75 @@ fn sustained_load_shutdown(rep: &Report) {
     }
 }
 
+/// Forgotten queues whose last TWO handles are dropped at the same instant on two threads, in
+/// batches against one persistent partner thread (a history of the main part gets one such moment;
+/// this part gets thousands): every one of them must shut down - stream dropped, thread gone.
+fn concurrent_last_drops_rounds(rep: &Report, batches: usize) {
+    const B: usize = 16;
+    let gate = Barrier::new(2);
+    let slot: std::sync::Mutex<Vec<metrique_writer::sink::BackgroundQueue<IdEntry>>> = std::sync::Mutex::new(vec![]);
+    let quit = AtomicBool::new(false);
+    std::thread::scope(|s| {
+        s.spawn(|| loop {
+            gate.wait(); // batch published (or quit)
+            if quit.load(Ordering::SeqCst) {
+                break;
+            }
+            let mine: Vec<_> = std::mem::take(&mut *slot.lock().unwrap());
+            for q in mine {
+                gate.wait();
+                drop(q);
+            }
+            gate.wait(); // batch done
+        });
+        'outer: for batch in 0..batches {
+            let mut shs = vec![];
+            let mut ours = vec![];
+            for i in 0..B {
+                let sh = StreamShared::new((batch * B + i) as u64);
+                let (q, h) = BackgroundQueueBuilder::new().capacity(8).flush_interval(Duration::from_micros(300)).build::<IdEntry>(sh.stream());
+                h.forget();
+                q.append(IdEntry { id: make_id(70, i as u32) });
+                slot.lock().unwrap().push(q.clone());
+                ours.push(q);
+                shs.push(sh);
+            }
+            gate.wait();
+            for q in ours {
+                gate.wait();
+                drop(q);
+            }
+            gate.wait();
+            rep.eval();
+            for (i, sh) in shs.iter().enumerate() {
+                if !progress_wait(|| sh.is_dropped() && sh.thread_exited(), default_stall()) {
+                    rep.violation(
+                        "forgotten-queue-never-shut-down",
+                        json!({"what": "join handle forgotten, then the last two queue handles dropped at the same instant on two threads: the writer must notice that no handle is left, drain, drop the stream and exit",
+                               "batch": batch, "queue_in_batch": i, "stream_dropped": sh.is_dropped(), "writer_thread_exited": sh.thread_exited(), "entries_written": sh.log().iter().filter(|e| e.id().is_some()).count()}),
+                    );
+                    break 'outer;
+                }
+                if sh.log().iter().filter(|e| e.id().is_some()).count() != 1 {
+                    rep.violation("forget-path-entry-lost", json!({"what": "the entry appended before the last two handles were dropped concurrently was not written exactly once", "batch": batch, "queue_in_batch": i}));
+                    break 'outer;
+                }
+                progress_tick();
+            }
+            rep.count("forgotten_queues_with_concurrent_last_two_drops", B as u64);
+        }
+        quit.store(true, Ordering::SeqCst);
+        gate.wait();
+    });
+}
+
 fn native_main(args: &Args, rep: &Report) {
     rep.rule(
         "each evaluation is one history on a typed / boxed / global-sink-attached queue: 1-4 client threads append through handles and clones \
          (with flushes), 0-2 racer threads append across the drop, optionally the writer is held inside next() or flush() so a backlog exists when \
          drop(handle) (or drop(AttachHandle), or forget + drop of the last queue handle) happens; oracle on the stream log + Drop/thread-exit flags: \
          everything appended before the drop began is written before it returns, a flush follows the last entry, stream dropped and thread exited \
-         before the return, nothing written afterwards. Finally, alone: shutdown while two appenders never stop and the stream is slow (queue never empty): \
+         before the return, nothing written afterwards. Then thousands of forgotten queues whose last two handles are dropped at the same instant on two threads. Finally, alone: shutdown while two appenders never stop and the stream is slow (queue never empty): \
          the writer must start its final drain within a few loop iterations of the flag store (counted at hook H1; the 150 ms shutdown timeout bounds the rest); distinct = distinct (kind, gate, forget, delivery order) signatures",
     );
     vcommon::sync::install_perturbation(args.seed, 50);
@@ -737,6 +799,9 @@ fn native_main(args: &Args, rep: &Report) {
     });
     if rep.violation_count() == 0 {
         held_in_recorder_scenarios(rep);
+    }
+    if rep.violation_count() == 0 {
+        concurrent_last_drops_rounds(rep, args.by_tier(150, 1500) as usize);
     }
     #[cfg(metrique_verif)]
     if rep.violation_count() == 0 {
